@@ -750,6 +750,21 @@ func paramIndexWithinArray(p *Prog, idx ssa.Value, arrayLen int64, depth int) bo
 			}
 			continue
 		}
+		// a loop counter (from 0, +1) known to be below a constant that does not exceed the array length
+		if isLoopCounter(a) {
+			bounded := false
+			for _, f := range CmpFactsAt(site) {
+				f = f.Canon()
+				if f.Op == token.LSS && f.X == a {
+					if kk, isKK := ConstInt(f.Y); isKK && kk <= arrayLen {
+						bounded = true
+					}
+				}
+			}
+			if bounded {
+				continue
+			}
+		}
 		if !paramIndexWithinArray(p, a, arrayLen, depth+1) {
 			return false
 		}
